@@ -55,12 +55,26 @@ def run(chk, program, tier):
             inputs[f"decode_basic_string/{ts[10]}"] = (A.AStr(pieces), ())
         # Actisense carries whole payloads: n bytes of payload
         hdr = A.AInt(None, [('prio', 0), ('prio', 1), ('prio', 2), 0] + [('dst', k) for k in range(8)] + [('src', k) for k in range(8)])
-        inputs['decode_actisense_string'] = (A.AStr([('lit', 'A173321.107 '), ('hexint', hdr, 5), ('lit', ' '), ('hexint', A.sym_int('pgn', 18), 5), ('lit', ' '), ('hexbytes', list(frame.items))]), ())
-        for name, (packet, extra) in inputs.items():
+        def actisense_line(pgn_ai):
+            return A.AStr([('lit', 'A173321.107 '), ('hexint', hdr, 5), ('lit', ' '), ('hexint', pgn_ai, 5), ('lit', ' '), ('hexbytes', list(frame.items))])
+        inputs['decode_actisense_string'] = (actisense_line(A.sym_int('pgn', 18)), ())
+        pgn_override = {}
+        work = list(inputs.items())
+        while work:
+            name, (packet, extra) = work.pop(0)
             meth = name.split('/')[0]
             try:
                 r = W.decode_with(program, meth, packet, extra)
             except A.Unknown as u:
+                if name == 'decode_actisense_string':
+                    # the front-end looks at the PGN itself (a test on the PDU format byte): once per kind of PGN, with that byte concrete -- an addressed
+                    # one (PF 0xEA), a broadcast one (PF 0xF1) and an addressed one of data page 1 (PF 0xEF), every other bit symbolic
+                    for pfv in (0xEA, 0xF1, 0xEF):
+                        bits_ = [('pgn', k) if not 8 <= k < 16 else (pfv >> (k - 8)) & 1 for k in range(18)]
+                        nm_ = f"decode_actisense_string/PF={pfv:#04x}"
+                        pgn_override[nm_] = bits_
+                        work.append((nm_, (actisense_line(A.AInt(None, bits_)), ())))
+                    continue
                 chk.unknown('FE-ROLE', f"{name}@n={n}", str(u), DEC, program.fn('decoder', f"NMEA2000Decoder.{meth}").lineno)
                 continue
             a = r.decode_args
@@ -73,7 +87,7 @@ def run(chk, program, tier):
                           expected='_extract_header(id[0:29])', found=repr(r.header_arg))
                 exp = {'pgn': [('H.pgn', k) for k in range(18)], 'priority': [('H.prio', k) for k in range(3)], 'source': [('H.src', k) for k in range(8)], 'destination': [('H.dst', k) for k in range(8)]}
             else:
-                exp = {'pgn': [('pgn', k) for k in range(18)], 'priority': [('prio', k) for k in range(3)], 'source': [('src', k) for k in range(8)], 'destination': [('dst', k) for k in range(8)]}
+                exp = {'pgn': pgn_override.get(name, [('pgn', k) for k in range(18)]), 'priority': [('prio', k) for k in range(3)], 'source': [('src', k) for k in range(8)], 'destination': [('dst', k) for k in range(8)]}
             got = {'pgn': a[0], 'priority': a[1], 'source': a[2], 'destination': a[3]}
             for role in exp:
                 W.judge_int(chk, got[role], exp[role], 'FE-ROLE', f"{name}::{role}@n={n}", file=DEC, line=line, func=meth,
